@@ -8,7 +8,8 @@ From Selfies Require Import Base Generated Lex Atoms Grammar Decoder Smiles PySe
   EncHyp EncShape EncTokens EncRows EncFuel EncIndex EncKey EncAttrErr EncUniq EncOrders.
 Local Open Scope nat_scope.
 
-Definition univ (e : exn) : Prop := In e [EncoderError; AssertionError; ValueError; IndexError; KeyError; AttributeError; OutOfFuel].
+(* the internal errors the model can name (EncoderError itself is raised by the strict check only) *)
+Definition univ (e : exn) : Prop := In e [AssertionError; ValueError; IndexError; KeyError; AttributeError; OutOfFuel].
 Ltac cls := intro H; inversion H; subst; unfold univ; cbn; tauto.
 
 Lemma lget_u {A} (l : list A) i e : lget l i = Err e -> univ e.
@@ -115,6 +116,23 @@ Proof.
   destruct (bond_constraint_errors _ m r (S idx)) as [x2|e1] eqn:Er; cbn [bind] in E; [discriminate|inversion E; subst; exact (IH _ _ Er)].
 Qed.
 
+(* after reader + kekulize: an error of encoder() is EncoderError from the strict check, or one of the internal errors *)
+Lemma encoder_error_sources T smiles strict attribute m0 m1 e :
+  smiles_to_mol smiles attribute = Ok m0 -> kekulize m0 = Ok (Some m1) ->
+  encoder T smiles strict attribute = Err e ->
+  (e = EncoderError /\ strict = true /\ check_bond_constraints (get_bonding_capacity T) m1 = Err EncoderError) \/ univ e.
+Proof.
+  intros Ep Ek E. unfold encoder, encoder_c in E. rewrite Ep in E. unfold encode_mol in E. rewrite Ek in E. cbn [bind] in E.
+  match type of E with (do _ <- ?X; _) = _ => destruct X as [u|e1] eqn:Ec end; cbn [bind] in E.
+  - right. destruct (invert_pass m1 (m_atoms m1) 0) as [atoms'|e1] eqn:Ei; cbn [bind] in E; [|inversion E; subst; exact (invert_pass_u _ _ _ _ Ei)].
+    destruct (encode_roots (set_atoms m1 atoms') _ 0) as [[frags maps]|e1] eqn:Er; cbn [bind] in E; [discriminate|].
+    inversion E; subst. exact (encode_roots_u _ _ _ _ Er).
+  - inversion E; subst e1; clear E. destruct strict; [|discriminate]. pose proof Ec as Ec0. unfold check_bond_constraints in Ec.
+    destruct (bond_constraint_errors _ m1 (m_atoms m1) 0) as [bad|e1] eqn:Eb; cbn [bind] in Ec.
+    + destruct bad; [inversion Ec; subst; left; auto|discriminate].
+    + inversion Ec; subst. right. exact (constraint_errors_u T m1 _ _ _ Eb).
+Qed.
+
 Theorem encoder_after_kekulize_outcomes T smiles strict attribute m0 m1 e :
   (exists v, assoc (lit "?") T = Some v) ->
   smiles_to_mol smiles attribute = Ok m0 -> kekulize m0 = Ok (Some m1) ->
@@ -127,16 +145,23 @@ Proof.
   pose proof (encoder_after_kekulize_no_key_error T smiles strict attribute m0 m1 e Hq Ep Ek E) as N3.
   pose proof (encoder_after_kekulize_no_attribute_error T smiles strict attribute m0 m1 e Ep Ek E) as N4.
   pose proof (encoder_after_kekulize_no_value_error T smiles strict attribute m0 m1 e Ep Ek E) as N6.
-  assert (U : univ e).
-  { unfold encoder, encoder_c in E. rewrite Ep in E. unfold encode_mol in E. rewrite Ek in E. cbn [bind] in E.
-    match type of E with (do _ <- ?X; _) = _ => destruct X as [u|e1] eqn:Ec end; cbn [bind] in E.
-    - destruct (invert_pass m1 (m_atoms m1) 0) as [atoms'|e1] eqn:Ei; cbn [bind] in E; [|inversion E; subst; exact (invert_pass_u _ _ _ _ Ei)].
-      destruct (encode_roots (set_atoms m1 atoms') _ 0) as [[frags maps]|e1] eqn:Er; cbn [bind] in E; [discriminate|].
-      inversion E; subst. exact (encode_roots_u _ _ _ _ Er).
-    - inversion E; subst e1; clear E. destruct strict; [|discriminate]. unfold check_bond_constraints in Ec.
-      destruct (bond_constraint_errors _ m1 (m_atoms m1) 0) as [bad|e1] eqn:Eb; cbn [bind] in Ec.
-      + destruct bad; [inversion Ec; unfold univ; cbn; tauto|discriminate].
-      + inversion Ec; subst. exact (constraint_errors_u T m1 _ _ _ Eb). }
+  destruct (encoder_error_sources T smiles strict attribute m0 m1 e Ep Ek E) as [[H _]|U]; [exact H|].
   unfold univ in U. cbn [In] in U. unfold nofuel in N1. unfold noidx in N2. unfold nokey in N3. unfold noattr in N4. unfold noassert in N5. unfold novalue in N6.
-  destruct U as [<-|[<-|[<-|[<-|[<-|[<-|[<-|[]]]]]]]]; auto; contradiction.
+  destruct U as [<-|[<-|[<-|[<-|[<-|[<-|[]]]]]]]; contradiction.
+Qed.
+
+(* hence, on a parseable and kekulisable input, encoder() fails exactly when the strict check does *)
+Theorem encoder_fails_iff_strict_check T smiles strict attribute m0 m1 :
+  (exists v, assoc (lit "?") T = Some v) ->
+  smiles_to_mol smiles attribute = Ok m0 -> kekulize m0 = Ok (Some m1) ->
+  ((exists r, encoder T smiles strict attribute = Ok r) \/ encoder T smiles strict attribute = Err EncoderError) /\
+  (encoder T smiles strict attribute = Err EncoderError <->
+   strict = true /\ check_bond_constraints (get_bonding_capacity T) m1 = Err EncoderError).
+Proof.
+  intros Hq Ep Ek. split.
+  - destruct (encoder T smiles strict attribute) as [r|e] eqn:E; [left; eauto|right]. now rewrite (encoder_after_kekulize_outcomes T smiles strict attribute m0 m1 e Hq Ep Ek E).
+  - split.
+    + intro E. destruct (encoder_error_sources T smiles strict attribute m0 m1 _ Ep Ek E) as [[_ H]|U]; [exact H|].
+      unfold univ in U. cbn [In] in U. destruct U as [U|[U|[U|[U|[U|[U|[]]]]]]]; discriminate.
+    + intros [-> Hc]. unfold encoder, encoder_c. rewrite Ep. unfold encode_mol. rewrite Ek. cbn [bind]. rewrite Hc. reflexivity.
 Qed.
